@@ -131,11 +131,13 @@ func rootState(l *lexer) stateFn {
 			return stringState
 		case '\\':
 			if l.mode == lexerModeStringInterpolation {
-				r = l.next()
-				switch r {
+				switch l.next() {
 				case '(':
 					l.emitType(TokenStringTemplate)
 					l.openBrackets++
+				default:
+					l.backupOne()
+					return l.error(fmt.Errorf("unrecognized character: %#U", r))
 				}
 			} else {
 				return l.error(fmt.Errorf("unrecognized character: %#U", r))
